@@ -414,8 +414,12 @@ class MailboxSet(MailboxSetInterface[MailboxData]):
                 raise KeyError(before)
             elif after_entry is not None:
                 raise ValueError(after)
+        renames = tree.get_renames(before, after)
+        if before == 'INBOX':
+            # inferior names of INBOX are unaffected by a rename of INBOX
+            renames = [(before, after)]
         async with self._set_lock.write_lock():
-            for before_name, after_name in tree.get_renames(before, after):
+            for before_name, after_name in renames:
                 if before_name == 'INBOX':
                     self._set[after_name] = self._inbox
                     self._inbox = MailboxData(
